@@ -112,7 +112,7 @@ def _split_clauses(spec_text):
     return clauses
 
 
-def assemble(unit_dir, repo, vacuity=False):
+def assemble(unit_dir, repo, vacuity=False, variables=None):
     """returns Generated.  vacuity=True replaces every `ensures` of functions with a `requires`
     by `ensures false` (the must-fail reachability variant)."""
     g = Generated()
@@ -132,7 +132,10 @@ def assemble(unit_dir, repo, vacuity=False):
             g.lines.append(l)
 
     def process(path, depth=0):
-        lines = open(path).read().split("\n")
+        text = open(path).read()
+        for k, v in (variables or {}).items():
+            text = text.replace("${" + k + "}", v)
+        lines = text.split("\n")
         i = 0
         while i < len(lines):
             l = lines[i]
@@ -287,6 +290,31 @@ def _emit_fn(g, source, a, blocks, vacuity):
             rules.append(("R8", f"signature: {old.strip()} -> {new.strip()}"))
     body = rewrite_body(it.body_text, rules, intended_panics=bool(a.get("intended_panics")))
     body = apply_r9(body, rules)
+    if a.get("closure_ty"):
+        # R18: an un-annotated closure `|p| EXPR` (EXPR a value expression) gets its specification: `|p| -> (o: TY) ensures o == EXPR { EXPR }`
+        tk = tokenize(body)
+        outp, k, hit = [], 0, 0
+        from rsx import match_close as _mc
+        while k < len(tk):
+            t = tk[k]
+            if t.text == "|" and k >= 1:
+                prev = [x for x in tk[:k] if x.kind not in ("ws", "comment")]
+                nxt = [j for j in range(k + 1, len(tk)) if tk[j].kind not in ("ws", "comment")]
+                if prev and prev[-1].text == "(" and len(nxt) >= 3 and tk[nxt[0]].kind == "ident" and tk[nxt[1]].text == "|" and tk[nxt[2]].text != "{" and tk[nxt[2]].text != "->":
+                    # body runs to the `)` that closes the enclosing call
+                    open_idx = max(j for j in range(k) if tk[j].text == "(" and tk[j] is prev[-1])
+                    close_idx = _mc(tk, open_idx)
+                    expr = "".join(x.text for x in tk[nxt[2]:close_idx]).strip()
+                    outp.append(f"|{tk[nxt[0]].text}| -> (o: {a['closure_ty']}) ensures o == {expr} {{ {expr} }}")
+                    rules.append(("R18", f"closure `|{tk[nxt[0]].text}| {expr}` annotated with `ensures o == {expr}`"))
+                    k = close_idx
+                    hit += 1
+                    continue
+            outp.append(t.text)
+            k += 1
+        if not hit:
+            raise ExtractError(f"anchor lost: no `|p| EXPR` closure to annotate in {f.name}")
+        body = "".join(outp)
     if a.get("unproject"):
         # R4d: pin_project alias elimination.  `let [mut] this = self[.as_mut()].project();` only builds a struct of
         # (pinned) references to the fields; the statement is dropped and every `this.FIELD` becomes `(&mut self.FIELD)`.
@@ -307,10 +335,15 @@ def _emit_fn(g, source, a, blocks, vacuity):
         k = 0
         while k < len(tk):
             t = tk[k]
-            if t.kind == "ident" and t.text == "this" and k + 2 < len(tk) and tk[k + 1].text == "." and tk[k + 2].kind == "ident":
-                outp.append("(&mut self." + tk[k + 2].text + ")")
-                k += 3
-                continue
+            if t.kind == "ident" and t.text == "this":
+                j1 = k + 1
+                while j1 < len(tk) and tk[j1].kind in ("ws", "comment"): j1 += 1
+                j2 = j1 + 1
+                while j2 < len(tk) and tk[j2].kind in ("ws", "comment"): j2 += 1
+                if j2 < len(tk) and tk[j1].text == "." and tk[j2].kind == "ident":
+                    outp.append("(&mut self." + tk[j2].text + ")")
+                    k = j2 + 1
+                    continue
             if t.kind == "ident" and t.text == "this":
                 raise ExtractError(f"R4d refused: bare use of `this` in {f.name}")
             outp.append(t.text)
